@@ -7,6 +7,18 @@ NOTE = ("Trusted: Coq 8.16.1 kernel (vm_compute for case evaluation and finite s
 CLAIMED = {
  "C08": ("proof", "Authorisation theorem over the ledger model: a message is delivered successfully only if its signer holds the role the property names, evaluated in the pre-state, for every message type incl. all governance messages (Coq, all states, all messages). The model is compared step by step with the real keepers on ~300 generated histories per run (roles family: role moves followed by attempts of former holders, other classes' issuers, plain accounts sending governance messages); Go monitors check role and frame on the real tables.",
          "inversion of every handler's checks in a hand-written Gallina model of the keepers (handle_requires_role); differential execution against the real chain; role/frame monitors"),
+ "C09": ("proof", "Every state validator and ValidateGenesis' cross-table checks are transcribed into Coq; proved: whatever a message validator plus a successful handler lets into a row satisfies that row's state validator, for all 40 messages and begin-block, hence every state reachable from a validated genesis validates row by row (batch date clause excluded: that clause is REFUTED with a concrete witness - known finding batch-dates-equal; the public-resolver analogue likewise). The model verdict is compared with the real ValidateGenesis on every exported state of the ledger family and a 111-case boundary corpus; the real export/validate/import/re-export round trip is executed by the harness on sampled states of every history.",
+         "transcription of state validators + per-handler 'message validator implies state validator' theorems; refutation witnesses for the two known defects; differential verdict comparison; real genesis round trips"),
+ "C11": ("proof", "Proved over the basket model: every credit of a successful Put was admissible (class on the allowed list, credit type match, start date not before the criterion, with the three criteria spelled out), an admissible credit the owner holds can be put (magnitude guards stated), Take releases along (start date, denom) order draining each batch before the next, a basket with auto-retire enabled only serves retire_on_take and then the credits land in the retired column. Basket-dates family: start dates at criterion-1ns/criterion/criterion+1ns, pre-1970/epoch dates, year boundaries, 300-year windows; Go reference of admission and greedy split on the real chain.",
+         "handler inversion + sorted-scan lemmas in the Gallina model; differential execution; admission/oldest-first monitors"),
+ "C13": ("proof", "Proved over the base-module model: an origin tx (class, id, lower-cased source) issues at most once across CreateBatch, MintBatchCredits and BridgeReceive (history theorem with a ghost trace, NoDup), BridgeReceive needs an allowed source, a (class, contract) pair is bound to one batch and later receipts mint into it, Bridge out needs an allowed target and a bound contract, cancels exactly the amounts and emits that batch's contract. Bridge family: replays through every pair of entry points incl. letter-case variants; event attributes compared.",
+         "invariant over the origin-tx and contract tables with a ghost issuance trace; differential execution incl. bridge events; replay monitors"),
+ "C16": ("proof", "Data-module state machine proved for an ARBITRARY 8-byte ID digest function: id<->IRI bijection, ids/anchor timestamps/attestations/registrations never change or disappear, first-anchor time = block time, manager-only registration, probe loop fuel sufficient. The model is compared with the real server under the production hasher and two weak hashers (4 outputs, constant) that force collision chains into the varint region.",
+         "invariant proofs over histories with the digest as a section variable; differential execution with injected weak hashers (verif hook)"),
+ "C17": ("proof", "Each list query is modelled as filter + index order + the ORM paginator; proved for 22 ecocredit list queries and the data queries: result = exactly the matching rows, no duplicates, and key/offset page walks with any page size partition the result with a correct total (BatchesByClass under the id well-formedness invariant proved in C14). The real gRPC query services are run on ~60 generated states x ~195 requests per run (prefix neighbours C10/C100, VCS-1/VCS-10) and compared with the model and with a brute-force scan.",
+         "filter/permutation/pagination theorems over the ledger state model; differential execution of the real query services; brute-force monitors"),
+ "C19": ("proof", "The apd-based decimal type is transcribed into Coq and proved: parse yields exactly the denoted rational (only well-formed literals accepted), add/sub exact, balance subtraction never negative without error, exact mul/quo exact-or-error, rounding ones within half an ulp at 34 digits, trim toward zero, print/parse round trip in plain notation, non-negative/positive/fixed gates. ~22k generated calls per run compare value AND representation (sign, coefficient, exponent, rendered string) with the real library; big.Rat monitors check every clause incl. operand immutability.",
+         "transcription of apd v2.0.2 as used by types/math with value theorems over Q; string-mode differential testing; big.Rat monitors"),
  "C10": ("proof", "PARTIAL. Proved: the modelled transition is a function, a failed message leaves no trace, and splitting a history at any block boundaries (restart = rebuild keepers over the stored state) gives the same result. Not provable in a model and therefore tested, not proved: identical app hashes, gas, events and responses across 3 (thorough: 8) executions with restart subsets and different GOMAXPROCS (determinism family), plus model/implementation agreement on every step.",
          "theorems about the model's transaction rule and history splitting; replicated real executions with restarts compared bit-for-bit (testing)"),
  "C14": ("proof", "Format/validator/parser theorems for class ids, project ids, batch denoms and basket denoms proved in Coq over regexes, format verbs and layouts regenerated from the Go AST on every run; executable model compared with the real functions on ~10k generated and malformed strings per run. Stateful half (sequences, uniqueness, references) is monitored on the real chain by the ledger family and proved as ledger invariants when Properties/C14.v is present.",
